@@ -42,6 +42,9 @@ pub enum Op11 {
     UndecodedDrop { attach: u8, multi: bool },
     Route { msgs: u8 },
     ProxyCycle { routes: u8 },
+    /// a private router proxy that is dropped without shutdown(), while `keep` of its routes
+    /// still have a live sender: its thread, poller and routed receivers must be released
+    ProxyDrop { routes: u8, keep: u8 },
     SpawnChild,
     Plant,
     RegionCloneDrop { len: u32 },
@@ -55,6 +58,10 @@ pub enum Op11 {
 pub struct Case {
     pub ops: Vec<Op11>,
     pub repeat: u16,
+    /// descriptor number 0 is free whenever the library receives (the process "has no stdin"):
+    /// received endpoints and whatever is created next land on number 0
+    #[serde(default)]
+    pub fd0: bool,
 }
 
 /// serialises its nodes, then reports an error
@@ -130,6 +137,7 @@ impl Prop for C11 {
                 Op11::SpawnChild,
             ],
             repeat: 1,
+            fd0: false,
         };
         let _ = run(&warm, true);
     }
@@ -149,6 +157,7 @@ impl Prop for C11 {
             2 => (0u8..7, any::<bool>()).prop_map(|(attach, multi)| Op11::UndecodedDrop { attach, multi }),
             2 => (0u8..5).prop_map(|msgs| Op11::Route { msgs }),
             1 => (0u8..3).prop_map(|routes| Op11::ProxyCycle { routes }),
+            1 => (0u8..4, 0u8..4).prop_map(|(routes, keep)| Op11::ProxyDrop { routes, keep }),
             1 => Just(Op11::SpawnChild),
             1 => Just(Op11::Plant),
             1 => (1u32..20000).prop_map(|len| Op11::RegionCloneDrop { len }),
@@ -157,12 +166,12 @@ impl Prop for C11 {
         ];
         let op = prop_oneof![5 => w, 3 => extra];
         let repeat = if ctx.thorough { prop_oneof![8 => Just(1u16), 2 => 2u16..20, 1 => 20u16..100].boxed() } else { prop_oneof![8 => Just(1u16), 2 => 2u16..6].boxed() };
-        (proptest::collection::vec(op, 1..max_len), repeat)
-            .prop_map(|(ops, repeat)| {
+        (proptest::collection::vec(op, 1..max_len), repeat, prop_oneof![3 => Just(false), 1 => Just(true)])
+            .prop_map(|(ops, repeat, fd0)| {
                 // the amplification product of generated cases stays bounded (the long repetitions
                 // are the enumerated cases below)
                 let repeat = repeat.min((4000 / ops.len().max(1)) as u16).max(1);
-                Case { ops, repeat }
+                Case { ops, repeat, fd0 }
             })
             .boxed()
     }
@@ -173,17 +182,18 @@ impl Prop for C11 {
         // in a short sequence but is unmistakable in the snapshot after thousands)
         let (fast, slow) = if ctx.thorough { (30000u16, 3000u16) } else { (300u16, 40u16) };
         vec![
-            Case { ops: vec![Op11::ConnectMissing], repeat: fast },
-            Case { ops: vec![Op11::ConnectStale], repeat: slow },
-            Case { ops: vec![Op11::FailSend { attach: 4 }], repeat: fast },
-            Case { ops: vec![Op11::SendToClosed { attach: 3, multi: true }], repeat: fast },
-            Case { ops: vec![Op11::RegionCloneDrop { len: 5000 }], repeat: fast },
-            Case { ops: vec![Op11::UndecodedDrop { attach: 5, multi: true }], repeat: slow },
-            Case { ops: vec![Op11::Route { msgs: 2 }], repeat: slow },
-            Case { ops: vec![Op11::ProxyCycle { routes: 2 }], repeat: slow },
-            Case { ops: vec![Op11::KilledSender { attach: 3, k: 2 }], repeat: slow },
-            Case { ops: vec![Op11::W(Op::SrvNew), Op11::W(Op::SrvConnect(65535)), Op11::W(Op::Send { tx: 65535, size: world::Size::Tiny, tree: crate::node::NP::Unit }), Op11::W(Op::SrvAccept(65535))], repeat: slow },
-            Case { ops: vec![Op11::W(Op::SrvNew), Op11::W(Op::SrvDrop(65535))], repeat: slow },
+            Case { ops: vec![Op11::ConnectMissing], repeat: fast, fd0: false },
+            Case { ops: vec![Op11::ConnectStale], repeat: slow, fd0: false },
+            Case { ops: vec![Op11::FailSend { attach: 4 }], repeat: fast, fd0: false },
+            Case { ops: vec![Op11::SendToClosed { attach: 3, multi: true }], repeat: fast, fd0: false },
+            Case { ops: vec![Op11::RegionCloneDrop { len: 5000 }], repeat: fast, fd0: false },
+            Case { ops: vec![Op11::UndecodedDrop { attach: 5, multi: true }], repeat: slow, fd0: false },
+            Case { ops: vec![Op11::Route { msgs: 2 }], repeat: slow, fd0: false },
+            Case { ops: vec![Op11::ProxyCycle { routes: 2 }], repeat: slow, fd0: false },
+            Case { ops: vec![Op11::ProxyDrop { routes: 2, keep: 1 }], repeat: slow, fd0: false },
+            Case { ops: vec![Op11::KilledSender { attach: 3, k: 2 }], repeat: slow, fd0: false },
+            Case { ops: vec![Op11::W(Op::SrvNew), Op11::W(Op::SrvConnect(65535)), Op11::W(Op::Send { tx: 65535, size: world::Size::Tiny, tree: crate::node::NP::Unit }), Op11::W(Op::SrvAccept(65535))], repeat: slow, fd0: false },
+            Case { ops: vec![Op11::W(Op::SrvNew), Op11::W(Op::SrvDrop(65535))], repeat: slow, fd0: false },
         ]
     }
 
@@ -192,10 +202,29 @@ impl Prop for C11 {
     }
 }
 
+fn thread_count() -> usize {
+    std::fs::read_dir("/proc/self/task").map(|d| d.count()).unwrap_or(0)
+}
+
+/// A private router's thread ends asynchronously; everything it owns is released by then.
+/// Wait (bounded) until the number of threads is back to what it was before the proxy existed.
+fn wait_for_threads(baseline: usize) -> bool {
+    let t0 = std::time::Instant::now();
+    while thread_count() > baseline {
+        if t0.elapsed() > Duration::from_secs(sandbox::watchdog_secs()) {
+            return false;
+        }
+        std::thread::sleep(Duration::from_micros(200));
+    }
+    true
+}
+
 struct Sentinels(Vec<i32>);
 impl Sentinels {
     fn plant(&mut self) {
         // fill every free descriptor number below (highest open + 6) with a dup of /dev/null
+        // (number 0 is not a sentinel: it has its own placeholder)
+        fdsnap::fd0::refill();
         let open = fdsnap::fd_map();
         let top = open.keys().max().copied().unwrap_or(2) + 6;
         let null = unsafe { libc::syscall(libc::SYS_openat, libc::AT_FDCWD, b"/dev/null\0".as_ptr(), libc::O_RDONLY | libc::O_CLOEXEC) as i32 };
@@ -235,6 +264,7 @@ fn run(case: &Case, warmup: bool) -> Result<Outcome, Failure> {
     let result = (|| -> Result<(), Failure> {
         for _rep in 0..case.repeat {
             let mut w = World::new(f1, f);
+            w.fd0_before_receives = case.fd0 && os;
             let mut stale_names: Vec<String> = vec![];
             for op in &case.ops {
                 match op {
@@ -286,6 +316,9 @@ fn run(case: &Case, warmup: bool) -> Result<Outcome, Failure> {
                         });
                         let mut set = IpcReceiverSet::new().map_err(|e| Failure::inconclusive(e.to_string()))?;
                         set.add(rx).map_err(|e| Failure::inconclusive(e.to_string()))?;
+                        if case.fd0 && os {
+                            fdsnap::fd0::free();
+                        }
                         let out = sandbox::watched(move || {
                             let mut closed = false;
                             let mut got = 0;
@@ -343,6 +376,7 @@ fn run(case: &Case, warmup: bool) -> Result<Outcome, Failure> {
                     },
                     Op11::ProxyCycle { routes } => {
                         kinds.insert("router");
+                        let threads0 = thread_count();
                         let p = RouterProxy::new();
                         let mut keep = vec![];
                         for _ in 0..*routes {
@@ -354,6 +388,46 @@ fn run(case: &Case, warmup: bool) -> Result<Outcome, Failure> {
                         p.shutdown();
                         drop(p);
                         drop(keep);
+                        ensure!(wait_for_threads(threads0), "leak:router-thread-remains", "the thread of a private router is still there after shutdown() and the drop of its proxy");
+                    },
+                    Op11::ProxyDrop { routes, keep } => {
+                        kinds.insert("router");
+                        struct Guard(crossbeam_channel::Sender<()>);
+                        impl Drop for Guard {
+                            fn drop(&mut self) {
+                                let _ = self.0.send(());
+                            }
+                        }
+                        let threads0 = thread_count();
+                        let p = RouterProxy::new();
+                        let (gtx, grx) = crossbeam_channel::unbounded();
+                        let mut live = vec![];
+                        for i in 0..*routes {
+                            let (tx, rx) = ipc::channel::<Node>().map_err(|e| Failure::inconclusive(e.to_string()))?;
+                            let g = Guard(gtx.clone());
+                            p.add_route(
+                                rx.to_opaque(),
+                                Box::new(move |m| {
+                                    let _ = &g;
+                                    drop(m)
+                                }),
+                            );
+                            let _ = tx.send(Node::U32(i as u32));
+                            if i < *keep {
+                                live.push(tx);
+                            }
+                        }
+                        drop(gtx);
+                        drop(p);
+                        // the stopping router drops every handler: wait for that (bounded), then the
+                        // descriptor comparison at the end of the case judges what it left behind
+                        for _ in 0..*routes {
+                            if grx.recv_timeout(Duration::from_secs(sandbox::watchdog_secs())).is_err() {
+                                fail!("leak:router-of-dropped-proxy-keeps-running", "a RouterProxy was dropped without shutdown(); its router still holds a route's handler (and with it its thread, poller and receivers)");
+                            }
+                        }
+                        ensure!(wait_for_threads(threads0), "leak:router-thread-remains", "the thread of a private router whose proxy was dropped is still there after it released its handlers");
+                        drop(live);
                     },
                     Op11::SpawnChild => {
                         if os {
@@ -400,6 +474,9 @@ fn run(case: &Case, warmup: bool) -> Result<Outcome, Failure> {
                             });
                             let _ = child.wait(Duration::from_secs(sandbox::watchdog_secs()));
                             // whatever arrived (a whole message, or nothing after an abandoned one) is dropped
+                            if case.fd0 {
+                                fdsnap::fd0::free();
+                            }
                             let got = sandbox::watched(move || {
                                 let r = rx.try_recv();
                                 drop(r);
@@ -428,7 +505,17 @@ fn run(case: &Case, warmup: bool) -> Result<Outcome, Failure> {
         Ok(())
     })();
     sentinels.remove();
+    let fd0_used = fdsnap::fd0::was_freed();
+    let fd0_end = if matches!(&result, Err(f) if f.poisoned) {
+        // a thread of the case is still stuck somewhere: leave the descriptor table alone
+        Ok(())
+    } else {
+        fdsnap::fd0::restore()
+    };
     result?;
+    if let Err(what) = fd0_end {
+        return Err(Failure::new("leak:descriptors", format!("descriptor number 0 was free while the case received (a process without stdin); after every handle was dropped ({} operations x {} repetitions) number 0 is still occupied by {}", case.ops.len(), case.repeat, what)).poisoned());
+    }
     if warmup {
         return Ok(Outcome::new(false, "warmup"));
     }
@@ -462,6 +549,8 @@ fn run(case: &Case, warmup: bool) -> Result<Outcome, Failure> {
         if kinds.contains("undecoded-drop") { "+undecoded-drop" } else { "" },
         if children > 0 { "+child-spawn" } else { "" },
         if case.repeat > 1 { "+repeated" } else { "" }
-    );
+    )
+    .replace("long", if fd0_used { "fd0-in-use/long" } else { "long" })
+    .replace("short", if fd0_used { "fd0-in-use/short" } else { "short" });
     Ok(Outcome::new(nt, class).with("operations", (case.ops.len() as u64) * case.repeat as u64).with("children_spawned", children))
 }
